@@ -648,6 +648,16 @@ func c20Mutations(rep *vrep.Report, t testing.TB, src *c20Source) {
 		ks[ki[0]].Data, ks[ki[1]].Data = ks[ki[1]].Data, ks[ki[0]].Data
 		muts = append(muts, mut{"key-files-swapped", ks, false, 0})
 	}
+	{
+		// both key files absent: nothing identifies the account
+		var nk []tarMember
+		for _, m := range clone() {
+			if kind(m.Name) != "key" {
+				nk = append(nk, m)
+			}
+		}
+		muts = append(muts, mut{"drop-all-keys", nk, true, 0})
+	}
 	muts = append(muts, mut{"restore-onto-existing-account", clone(), true, 1}, mut{"restore-onto-store-with-proof-key-only", clone(), true, 2})
 
 	valid := restoreInto(t, src, src.archive, 0, 60*time.Second, false)
